@@ -320,6 +320,9 @@ C04_EACL(g2)  == \A c \in Cids : IF c \notin Live(g2) THEN api'.eacl[c] = "nf"
 C04_Alias(g2) == \A c \in Cids : IF c \notin Live(g2) THEN api'.alias[c] = "nf"
                                  ELSE IF g2.alias[c] # None THEN api'.alias[c] = g2.alias[c]
                                  ELSE api'.alias[c] \notin Names
+\* "alias and its NNS record": while a container is live under a name, the TXT record of that name lists it (the record is
+\* what makes the alias mean anything, and it is the trace that deletion has to remove)
+C04_AliasRecord(g2) == \A c \in Live(g2) : g2.alias[c] # None => InSeq(c, txt'[g2.alias[c]])
 C04_Lists(g2) == /\ \A o \in Owners : /\ api'.list[o] = {c \in Live(g2) : COwner[c] = o}
                                       /\ api'.cof[o]  = {c \in Live(g2) : COwner[c] = o}
                  /\ api'.list["all"] = Live(g2)
